@@ -15,7 +15,7 @@ import (
 
 // Op is an insertion (V>0... K="add") or deletion of a distinct value.
 type Op struct {
-	K string `json:"k"` // add remove contains
+	K string `json:"k"` // add remove clone (continue on a clone of the tree)
 	V int    `json:"v"`
 }
 
@@ -130,6 +130,18 @@ func (H) Generate(r *simrt.Rand, tier string) any {
 			remove(best)
 		}
 	}
+	if r.Intn(4) == 0 && len(s.Ops) > 0 {
+		// a clone is a tree too: continue on a clone taken at a seeded point
+		at := r.Intn(len(s.Ops) + 1)
+		s.Ops = append(s.Ops[:at], append([]Op{{"clone", 0}}, s.Ops[at:]...)...)
+		for i := 0; i < 1+r.Intn(8); i++ {
+			if len(vals) > 0 && r.Intn(2) == 0 {
+				remove(r.Intn(len(vals)))
+			} else {
+				add(1 + r.Intn(4*n+8))
+			}
+		}
+	}
 	if r.Intn(3) == 0 {
 		// interleave further insertions and deletions
 		for i := 0; i < n; i++ {
@@ -186,6 +198,7 @@ func (H) Execute(scAny any, cfg simrt.Config, st *core.Stats) (*simrt.Outcome, *
 			return 0
 		})
 		size := 0
+		cloned := false
 		present := map[int]bool{}
 		for i, o := range sc.Ops {
 			simrt.Yield()
@@ -199,6 +212,9 @@ func (H) Execute(scAny any, cfg simrt.Config, st *core.Stats) (*simrt.Outcome, *
 				tree.Add(o.V)
 				present[o.V] = true
 				size++
+			case "clone":
+				tree = tree.Clone()
+				cloned = true
 			case "remove":
 				if !present[o.V] {
 					continue
@@ -259,6 +275,9 @@ func (H) Execute(scAny any, cfg simrt.Config, st *core.Stats) (*simrt.Outcome, *
 			build(0, size-1, 1)
 			if bad != "" {
 				sig := "unbalanced:after-" + o.K
+				if cloned {
+					sig += "-on-clone"
+				}
 				if bad[0] == 'p' {
 					sig = "traversals-inconsistent"
 				}
@@ -270,7 +289,7 @@ func (H) Execute(scAny any, cfg simrt.Config, st *core.Stats) (*simrt.Outcome, *
 				v = &core.Violation{Signature: "depth-bound", Detail: fmt.Sprintf("after op %d %s: n=%d, deepest element at level %d > 1.4405*log2(n+2)=%.2f", i, o, size, depth, bound)}
 				return
 			}
-			if float64(used) > 3*bound+8 {
+			if o.K != "clone" && float64(used) > 3*bound+8 {
 				v = &core.Violation{Signature: "comparisons-bound", Detail: fmt.Sprintf("op %d %s on n=%d needed %d comparator calls (> 3*%.2f+8)", i, o, size, used, bound)}
 				return
 			}
